@@ -11,6 +11,7 @@ from ..gen import (random_plan, rand_fraction, rand_float_fraction,
 from ..models import si_table as SI
 from ..models import rounding as RM
 from ..models.world import predefined_world
+from ..ops import computed
 from ..oracle import brief
 
 RULE = ("all 113 predefined units (+ synthetic units with non-ASCII, "
@@ -82,6 +83,12 @@ def ctor_sub(chk, rng, w, wid, sym, plan=None):
         c = OP("*", e, U(sym))
     else:
         c = OP("*", U(sym), e)
+    if kind in ("D", "F", "int") and via == "factory":
+        # the same quantity as the result of an operation: text and
+        # re-parsing of amounts that no constructor call wrote
+        ce = computed(rng, w, x, sym)
+        if ce is not None:
+            c, via = ce, "computed"
     others = [u.sym for u in w.units_of(w.units[sym].tname)
               if w.convertible(sym, u.sym)]
     other = rng.choice(others)
